@@ -147,6 +147,9 @@ def _mk_cash(orig):
         except ValueError as ex:
             if ctx is not None and uses_default(self) and "lower < upper" in str(ex):
                 pl = (input - target).detach()
+                if not bool(torch.isfinite(pl).all()):
+                    ctx.ood("cash.equivalent")  # NaN P&L (non-finite hedges are C18's subject): min/max are NaN, the search cannot start
+                    raise
                 ctx.seen("cash.equivalent")
                 const = bool((pl == pl.reshape(-1)[0]).all())
                 ctx.violation("cash.equivalent", "cash.default_search_constant_sample" if const else "cash.valueerror",
